@@ -118,7 +118,14 @@ class Context:
         return not self._global_of_type(name, SymbolType.ROUTINE).undefined
 
     def get_macro(self, name) -> Symbol:
+        # A parameter or local variable hides a constant of the same name.
+        if not self._locals.get_symbol(name).undefined:
+            return Symbol()
         return self._global_of_type(name, SymbolType.MACRO)
+
+    def has_macro(self, name) -> bool:
+        # Whether the name is taken by a constant, hidden here or not.
+        return not self._global_of_type(name, SymbolType.MACRO).undefined
 
     def _global_of_type(self, name, symbol_type) -> Symbol:
         symbol = self._globals.get_symbol(name)
